@@ -5,7 +5,10 @@ EXTENDS ParserLoop, Json
 \* a lone '>', a name with an escape that is not two hex digits ('#G0', '##', '#' at the end of the name), a hex
 \* string with a non-hex digit, an unbalanced ')', a lone brace
 BadForms == {"gt", "nameesc", "namehash", "nameend", "hexbad", "rparen", "brace"}
+\* what follows the last token of the stream: an operator ("op"), white space and then the end of the data ("sp"),
+\* or the end of the data at once ("eod") - a scanner that skipped white space stands AT the end, not before it
+Ends == {"op", "sp", "eod"}
 HasBad == \E i \in 1..Len(input) : input[i] = "BAD"
-EmitInput == (pc = "load1") => IF HasBad THEN \A b \in BadForms : PrintT(ToJson([toks |-> input, bad |-> b]))
-                                ELSE PrintT(ToJson([toks |-> input, bad |-> "gt"]))
+EmitInput == (pc = "load1") => IF HasBad THEN \A b \in BadForms : PrintT(ToJson([toks |-> input, bad |-> b, ends |-> Ends]))
+                                ELSE PrintT(ToJson([toks |-> input, bad |-> "gt", ends |-> Ends]))
 ====
